@@ -306,7 +306,7 @@ def read(fr: dict) -> dict:
         rlen = int.from_bytes(d[4:6], "big")
         rcount = int.from_bytes(d[6:8], "big")
         if len(d) != 8 + normal + rlen * rcount:
-            return {"kind": UNDEF, "why": "0xC0 lengths disagree", "sub": sub}
+            return {"kind": UNDEF, "why": "0xC0 lengths disagree", "sub": sub, "normal": normal, "rlen": rlen, "rcount": rcount}
         body = d[8 + normal :]
         recs = [body[i * rlen : (i + 1) * rlen] for i in range(rcount)]
         hdr = {"sub": sub, "normal": normal, "rlen": rlen, "rcount": rcount, "keep0": d[1]}
